@@ -20,6 +20,12 @@ def emit(pairs, check_fn=None):
     lines = [lib.CASE_HEADER.format(imports="RepModel Routine Compile CompileTop DenSrc Checks", gen_imports="")]
     items = []
     for k, (case, imp) in enumerate(pairs):
+        if case.get("expect_refusal"):
+            # a source the compiler has to refuse as a whole (a resource no repetition can carry, with the switch that would
+            # let it through turned OFF): refused, never compiled with something the source does not define
+            refused = (not imp.get("ok")) and imp.get("exc") == "BartiqCompilationError"
+            items.append("([], [0%nat])" if refused else "([], [1%nat])")
+            continue
         if case.get("null_resource"):
             # a resource declared without a value: the source is refused as a whole; it is never compiled with the resource
             # silently left out (C10: every resource of the source is in the compiled hierarchy)
